@@ -207,7 +207,11 @@ def exercise(ctx, prs, label, rng, budget):
             elif after_self != before_self:
                 ctx.fail(f"{p.kind}.{p.name}:rejected-but-changed", f"{label} {path}.{p.name} = {v!r} was rejected ({outcome}) but the reading changed from {before_self[1]!r} to {after_self[1]!r}", case)
         if outcome.startswith("rejected"):
-            if cls in ("in", "none") and before_self[0] == "v":
+            if cls in ("in", "none") and "(thinned" in label:
+                # an in-domain value refused on a thinned deck: the object is incomplete (a connector without extents), the
+                # refusal comes from arithmetic on a missing value - says nothing about the property
+                ctx.count("in-domain-value-refused-on-thinned-input")
+            elif cls in ("in", "none") and before_self[0] == "v":
                 # a conditional domain (e.g. gradient_angle of a non-linear gradient, offset of a value axis): the reading must not move
                 ctx.count(f"conditional-domain:{p.kind}.{p.name}")
                 if after_self != before_self:
